@@ -88,7 +88,7 @@ def split_sizes(rng, total):
 
 
 GRID_KINDS = ['uniform', 'geometric', 'geometric_local', 'data', 'free', 'uniform_locT', 'uniform_locT0',
-              'geometric_locT', 'uniform_locboth', 'geometric_locT0']
+              'geometric_locT', 'uniform_locboth', 'geometric_locT0', 'free_locT0']
 
 
 def gen_grid(rng, kind, N):
@@ -103,6 +103,8 @@ def gen_grid(rng, kind, N):
         return {'kind': 'data', 'nz': [0.0] + [p / 16.0 for p in pts] + [1.0]}
     if kind == 'free':
         return {'kind': 'free'}
+    if kind == 'free_locT0':
+        return {'kind': 'free', 'localize_t0': True}
     if kind == 'density_poly':
         co = [rng.choice([0.5, 1, 2]), rng.choice([0, 1, 3]), rng.choice([0, 2, 6])]
         if co[1] == 0 and co[2] == 0:
@@ -308,6 +310,11 @@ def gen_constraints(rng, d, prof):
             d['phs'].append((k, e))
             ph = ('ph', len(d['phs']) - 1)
             lhs = ph
+            if rng.random() < prof.get('both_ends_prob', 0.0):
+                # a boundary constraint that couples BOTH ends of the horizon (periodicity, net change): at_t0(..) and at_tf(..) in one
+                k2 = 'at_tf' if k == 'at_t0' else 'at_t0'
+                d['phs'].append((k2, poly(rng, s['x'], (1, 2), 2)))
+                lhs = ('+', ph, ('*', E.C(coef(rng)), ('ph', len(d['phs']) - 1)))
             if s['v'] and rng.random() < 0.4:
                 lhs = ('+', ph, ('*', E.C(coef(rng)), rng.choice(s['v'])))
             rhs = E.C(coef(rng))
